@@ -10,6 +10,9 @@ Suites
                  enumerated path, and the add / remove / compare calls of compareProjects.
                  The model is fed the tables of the real Matcher objects (match, sub,
                  prefix, pattern classes) and the os.walk order of the tree.
+  PROJECT-multi  2-3 top-level projects in one ProjectFiles / compareProjects run (shared parser
+                 env dict, same variable bound differently, cross includes of excluded files
+                 through differently spelled paths)
   PROJECT-quirk  small dedicated streams for the two corner cases found while proving
                  completeness (see oracle signatures below); correspondence only differs in
                  the generator
@@ -28,6 +31,7 @@ import contextlib
 import io
 import json
 import os
+import posixpath
 import re
 import shutil
 import tempfile
@@ -44,7 +48,11 @@ RULE = ("generated projects: 1-5 TOML files (includes, nested includes, diamond 
         "(tests merged, mismatching references), per-rule / per-file locales, variables "
         "({l10n_base} absolute, nested {l}, relative {base}, module variable) from the file "
         "or the parser environment (overriding), trees populated on both sides from a name "
-        "pool incl. uncovered names, a foreign locale and an unused module; every project "
+        "pool incl. uncovered names, a foreign locale and an unused module; the same [env] "
+        "variable bound differently in parent, child and sibling top-level files and used in "
+        "their rules; twin rules differing only in a trailing `*` / `**` (both orders, different "
+        "tests); include / exclude paths spelled with `.` and `..` segments; runs with 2-3 "
+        "top-level projects sharing one parser env dict, one including what another excludes; every project "
         "locale + foreign + None (+ merge base); a case is distinct by (project text, tree, "
         "locale, merge); non-trivial = at least one rule enabled for the locale")
 
@@ -56,7 +64,7 @@ POOL = ["a.ftl", "b.properties", "foo-1.ftl", "foo-x.ftl", "foo-.ftl", "exact.ft
         "x/main.ftl", "sub/main.ftl", "sub/b.ftl", "sub/foo-2.ftl", "sub/deep/c.properties",
         "sub/deep/d.ftl", "strings.ftl"]
 TAILS = ["**", "**/*.ftl", "*.properties", "foo-*.ftl", "exact.ftl", "*/main.ftl", "sub/**",
-         "**", "*.ftl"]
+         "**", "*.ftl", "*"]
 REF_CONTENT = "k1 = v\nk1 = w\nk2 = v\n"
 L10N_CONTENT = "k1 = x\n"
 ECODE = {"RuntimeError": 8, "TypeError": 1, "AttributeError": 12, "KeyError": 3,
@@ -88,8 +96,12 @@ class Cfg:
         self.env = {}                   # [env]
         self.locales = None
         self.rules = []
-        self.includes = []              # texts of [[includes]] path
+        self.includes = []              # [[includes]]: the files, as paths below the project dir
         self.excludes = []
+        self.spell = {}                 # file -> the text written as `path` (default: the file itself)
+
+    def texts(self, lst):
+        return [self.spell.get(x, x) for x in lst]
 
     def toml(self):
         out = []
@@ -111,7 +123,7 @@ class Cfg:
             if r.tests is not None:
                 out.append("test = %s" % json.dumps(r.tests))
         for kind, lst in (("includes", self.includes), ("excludes", self.excludes)):
-            for p in lst:
+            for p in self.texts(lst):
                 out.append("[[%s]]" % kind)
                 out.append("path = %s" % json.dumps(p))
         return "\n".join(out) + "\n"
@@ -121,6 +133,7 @@ class Proj:
     def __init__(self):
         self.cfgs = {}          # rel -> Cfg ("l10n.toml" is the top)
         self.top = None
+        self.tops = None        # the top-level files of one ProjectFiles run (default: [top])
         self.penv = {}          # parser environment (with {T} for the temp dir)
         self.locales = []
         self.files = []         # relative paths below the project dir
@@ -132,7 +145,11 @@ class Proj:
         return json.dumps({"cfgs": [[c.rel, c.toml()] for c in self.cfgs.values()],
                            "files": sorted(self.files), "penv": sorted(self.penv.items()),
                            "missing": sorted(getattr(self, "missing", [])),
+                           "tops": [c.rel for c in self.top_cfgs()],
                            "kind": self.kind, "flags": sorted(self.flags)})
+
+    def top_cfgs(self):
+        return [self.cfgs[r] for r in self.tops] if self.tops else [self.top]
 
 
 def proj_from_text(text):
@@ -153,8 +170,12 @@ def proj_from_text(text):
         c.locales = data.get("locales")
         c.rules = [Rule(r.get("reference"), r["l10n"], r.get("locales"), r.get("test"))
                    for r in data.get("paths", [])]
-        c.includes = [x["path"] for x in data.get("includes", [])]
-        c.excludes = [x["path"] for x in data.get("excludes", [])]
+        for kind, lst in (("includes", c.includes), ("excludes", c.excludes)):
+            for x in data.get(kind, []):
+                r = posixpath.normpath(x["path"])
+                lst.append(r)
+                if r != x["path"]:
+                    c.spell[r] = x["path"]
         if (c.basepath or "").endswith("alt"):
             c.root_rel = "alt/"
         p.cfgs[rel] = c
@@ -162,6 +183,10 @@ def proj_from_text(text):
         if p.top is None:
             p.top = c
     p.locales = sorted(l for l in locs if l)
+    if len(d.get("tops", [])) > 1:
+        p.tops = d["tops"]
+    if d.get("tops"):
+        p.top = p.cfgs[d["tops"][0]]
     return p
 
 
@@ -174,7 +199,9 @@ def gen_rule(rng, p, c, mods, lbases):
     mod = rng.choice(mods)
     lbase = rng.choice(lbases)
     modtxt = mod
-    if "m" in c.env and c.env["m"] == mod and rng.random() < 0.5:
+    if "m" in c.env and rng.random() < 0.6:
+        # the file's own module variable (files may bind it differently)
+        mod = c.env["m"]
         modtxt = "{m}"
     tail = rng.choice(TAILS)
     if rng.random() < 0.08:
@@ -216,7 +243,7 @@ def gen_project(rng, kind="main"):
     elif mode == 4:     # relative variable of the file
         fenv["base"] = "l10n"
         lbases += ["{base}"] * 2
-    if rng.random() < 0.3:
+    if rng.random() < 0.45:
         fenv["m"] = mods[0]
     if rng.random() < 0.2:
         penv["unused"] = "u"
@@ -241,6 +268,9 @@ def gen_project(rng, kind="main"):
         c.env = dict(fenv) if rng.random() < 0.8 else {k: v for k, v in fenv.items() if k != "m"}
         # a child is only useful if it knows every variable its rules may use
         c.env.update({k: v for k, v in fenv.items() if k != "m"})
+        if "m" in c.env and rng.random() < 0.65:
+            # the same variable, bound differently in this file: each file's variables are its own
+            c.env["m"] = rng.choice([m for m in MODS + ["other"] if m != fenv["m"]])
         r = rng.random()
         if r < 0.3:
             c.locales = sorted(rng.sample(p.locales, rng.randint(1, len(p.locales))))
@@ -323,6 +353,25 @@ def gen_project(rng, kind="main"):
             elif z < 0.3:
                 d.ref = None if rng.random() < 0.5 else d.ref
             c1.rules.insert(rng.randint(0, len(c1.rules)), d)
+    # twins: the same rule once with a trailing `*` and once with a trailing `**`, in either
+    # order, with different tests
+    cands = [(c, r) for c in p.cfgs.values() for r in c.rules
+             if r.l10n.endswith("/**") or r.l10n.endswith("/*")]
+    if cands and rng.random() < 0.25:
+        c0, r0 = rng.choice(cands)
+        flip = (lambda t: t[:-2] + "*") if r0.l10n.endswith("/**") else (lambda t: t + "*")
+        d = Rule(flip(r0.ref) if r0.ref is not None else None, flip(r0.l10n), r0.locales,
+                 rng.choice([None, rng.sample(TESTS, rng.randint(1, 2))]))
+        if r0.tests is None and rng.random() < 0.6:
+            r0.tests = rng.sample(TESTS, 1)
+        i = c0.rules.index(r0)
+        c0.rules.insert(i + rng.randint(0, 1), d)
+    # spellings of include / exclude paths with `.` and `..` segments (resolved against the
+    # including file's root, the project dir)
+    for c in p.cfgs.values():
+        for rel in c.includes + c.excludes:
+            if rng.random() < 0.3:
+                c.spell[rel] = rng.choice(["./", "cfg/../", "sub/./../", "cfg/../sub/../"]) + rel
     # the files reachable from an exclude only have rules with both sides (an l10n-only
     # rule of an excluded file is the stream `exclude-l10n-only`)
     reach, stack = set(), list(top.excludes)
@@ -377,6 +426,41 @@ def gen_project(rng, kind="main"):
             if rng.random() < 0.6:
                 files.add("l10n/%s/%s/q/u.ftl" % (loc, mods[0]))
     p.files = sorted(files)
+    p._gen = (mods, lbases, fenv)
+    return p
+
+
+def gen_multi(rng):
+    """several projects in one ProjectFiles run: a second (third) top-level file with its own
+    variables, which includes files the first one excludes or includes, through differently
+    spelled paths"""
+    p = gen_project(rng)
+    p.kind = "multi"
+    mods, lbases, fenv = p._gen
+    p.tops = [p.top.rel]
+    for rel in ["b.toml", "cfg/c.toml"][:rng.choice([1, 1, 2])]:
+        b = Cfg(rel, ".." if "/" in rel else rng.choice([".", None]))
+        b.env = dict(fenv)
+        if "m" in b.env and rng.random() < 0.7:
+            b.env["m"] = rng.choice([m for m in MODS + ["other"] if m != fenv["m"]])
+        elif "m" not in b.env and rng.random() < 0.3:
+            b.env["m"] = rng.choice(MODS)
+        r = rng.random()
+        b.locales = list(p.locales) if r < 0.6 else \
+            sorted(rng.sample(p.locales, rng.randint(1, len(p.locales)))) if r < 0.9 else None
+        cl = [x for x in lbases if all(v in b.env or v in p.penv for v in re.findall(r"\{(\w+)\}", x))]
+        for _ in range(rng.randint(0, 3)):
+            b.rules.append(gen_rule(rng, p, b, mods, cl))
+        others = [c for c in p.cfgs.values() if c.rel not in p.tops and not c.root_rel]
+        # include what the first project excludes (this cancels the exclude), or what it includes
+        pool = [c.rel for c in others if c.rel in p.top.excludes] * 3 + [c.rel for c in others]
+        for x in rng.sample(pool, min(len(pool), rng.randint(0, 2))):
+            if x not in b.includes:
+                b.includes.append(x)
+                if rng.random() < 0.6:
+                    b.spell[x] = rng.choice(["./", "cfg/../", "sub/./../"]) + x
+        p.cfgs[rel] = b
+        p.tops.append(rel)
     return p
 
 
@@ -450,6 +534,8 @@ def write_tree(p, T):
     if os.path.exists(md):
         shutil.rmtree(md)
     os.makedirs(pd)
+    for d in ("cfg", "sub"):
+        os.makedirs(os.path.join(pd, d))
     for c in p.cfgs.values():
         path = os.path.join(pd, c.rel)
         os.makedirs(os.path.dirname(path), exist_ok=True)
@@ -596,14 +682,20 @@ class Oracle:
         """-> (dict l10n path -> record, set of excluded files, raise expected?)
         record = dict(kind = l10n | missing | ref, ref, merge, tests, alts, clean)"""
         p = self.p
-        top = p.top
-        if locale is not None and locale not in self.all_locales(top):
+        # the projects enabled for the locale; a file takes part once, however it is reached
+        configs, seen_c, excluded_files = [], set(), []
+        for top in p.top_cfgs():
+            if locale is not None and locale not in self.all_locales(top):
+                continue
+            configs += self.flatten(top, seen_c)
+            excluded_files += [x for x in top.excludes if x not in excluded_files]
+        if not configs:
             return {}, set(), False
-        configs = self.flatten(top, set())
         inc_paths = {c.rel for c in configs}
         xconfigs, seen = [], set()
-        for x in top.excludes:
+        for x in excluded_files:
             if x in inc_paths:
+                # explicitly included (by any project, however the path is spelled)
                 continue
             xc = p.cfgs[x]
             if locale is not None and locale not in self.all_locales(xc):
@@ -774,15 +866,16 @@ def run_one(chk, p, T, locales_to_run, stats):
     pd = write_tree(p, T)
     mergebase = T + "/m"
     penv = {k: v.replace("{T}", T) for k, v in p.penv.items()}
-    top_path = mozpath.join(pd, p.top.rel)
+    # one env dict for every top-level file, as the command line does; the oracle keeps its own
+    shared_env = dict(penv)
     try:
-        cfg = TOMLParser().parse(top_path, env=penv)
+        cfgs = [TOMLParser().parse(mozpath.join(pd, top.rel), env=shared_env) for top in p.top_cfgs()]
     except Exception as e:  # noqa
         chk.fail("toml-parse-raised", {"project": p.text()}, repr(e))
         return [], [], []
     fs = walk_files(pd)
     oracle = Oracle(p, T, penv)
-    nodes = all_nodes(cfg)
+    nodes = [n for cfg in cfgs for n in all_nodes(cfg)]
     rules = []          # (paths dict)
     for n in nodes:
         rules.extend(n.paths)
@@ -792,7 +885,7 @@ def run_one(chk, p, T, locales_to_run, stats):
         desc = {"project": p.text(), "locale": locale, "merge": merge, "kind": p.kind}
         chk.count((p.text(), locale, merge))
         # -------- implementation ------------------------------------------------
-        built = guarded(lambda: ProjectFiles(locale, [cfg], mergebase=mb))
+        built = guarded(lambda: ProjectFiles(locale, cfgs, mergebase=mb))
         pf = built[1] if built[0] == 0 else None
         enum = guarded(lambda: list(pf)) if pf is not None else None
         queries = list(fs)
@@ -860,7 +953,7 @@ def run_one(chk, p, T, locales_to_run, stats):
                     [[4 * ridx[id(pt)], opt(4 * ridx[id(pt)] + 2 if "reference" in pt else None),
                       tests_ids(pt.get("test", [])), olocs(pt.get("locales"))] for pt in n.paths],
                     [node_sx(ch) for ch in n.children]]
-        proj_sx = [[node_sx(cfg), [node_sx(x) for x in cfg.excludes]]]
+        proj_sx = [[node_sx(cfg), [node_sx(x) for x in cfg.excludes]] for cfg in cfgs]
         fs_ix = [S(f) for f in fs]
         q_ix = [S(q) for q in queries]
         loc_sx = opt(S(locale) if locale is not None else None)
@@ -896,7 +989,7 @@ def run_one(chk, p, T, locales_to_run, stats):
                 cmp_mod.ContentComparer = Recorder.make(log)
                 try:
                     with contextlib.redirect_stdout(io.StringIO()):
-                        obs = guarded(lambda: cmp_mod.compareProjects([cfg], [locale], pd + "/l10n",
+                        obs = guarded(lambda: cmp_mod.compareProjects(cfgs, [locale], pd + "/l10n",
                                                                       merge_stage=mb))
                 finally:
                     cmp_mod.ContentComparer = saved
@@ -910,7 +1003,7 @@ def run_one(chk, p, T, locales_to_run, stats):
                     chk.hist("compareProjects_raised", "TypeError(l10n-only rule, file present)"
                              if obs[1] == 1 else obs[1])
                 elif not p.flags:
-                    oracle_details(chk, desc, cfg, obs[1], log, locale, pd)
+                    oracle_details(chk, desc, cfgs, obs[1], log, locale, pd)
             out = [0, [ms_canon(pf.matchers),
                        opt(ms_canon(pf.exclude.matchers) if pf.exclude is not None else None),
                        [enum[0], [entry_canon(e) for e in enum[1]]] if enum[0] == 0 else enum,
@@ -1028,7 +1121,7 @@ def check_enumeration(chk, desc, oracle, locale, mb, fs, built, enum, pf, p):
                     return
 
 
-def oracle_details(chk, desc, cfg, observers, log, locale, pd):
+def oracle_details(chk, desc, cfgs, observers, log, locale, pd):
     """the detail keys of compareProjects name exactly the files it was driven with"""
     from compare_locales import mozpath
     from compare_locales.paths import File, REFERENCE_LOCALE
@@ -1037,7 +1130,7 @@ def oracle_details(chk, desc, cfg, observers, log, locale, pd):
     for a, l, r, m, t in log:
         fpath = mozpath.relpath(l, pd + "/l10n")
         lf = File(l, fpath or l, locale=locale if locale is not None else REFERENCE_LOCALE)
-        if locale is not None and cfg.filter(lf) == "ignore":
+        if locale is not None and all(cfg.filter(lf) == "ignore" for cfg in cfgs):
             continue
         parsable = l.endswith((".ftl", ".properties"))
         if a == 0:
@@ -1068,7 +1161,8 @@ def toml_data_sx(c, T):
     paths = [[canon(r.l10n), opt(canon(r.ref) if r.ref is not None else None), ol(r.tests), ol(r.locales)]
              for r in c.rules]
     return [opt(canon(c.basepath) if c.basepath is not None else None), env, paths,
-            ol(c.includes) if c.includes else [], ol(c.excludes) if c.excludes else [], ol(c.locales)]
+            ol(c.texts(c.includes)) if c.includes else [],
+            ol(c.texts(c.excludes)) if c.excludes else [], ol(c.locales)]
 
 
 def run_toml(chk, p, T, ignore_missing, stats):
@@ -1090,7 +1184,7 @@ def run_toml(chk, p, T, ignore_missing, stats):
         return orig(self, *paths)
     ProjectConfig.add_paths = add_paths
     try:
-        res = guarded(lambda: TOMLParser().parse(top_path, env=penv,
+        res = guarded(lambda: TOMLParser().parse(top_path, env=dict(penv),
                                                  ignore_missing_includes=ignore_missing))
     finally:
         ProjectConfig.add_paths = orig
@@ -1120,7 +1214,7 @@ def run_toml(chk, p, T, ignore_missing, stats):
         roots.append([canon(path), canon(base), canon(root)])
         env = {k: v.replace("{T}", T) for k, v in c.env.items()}
         env.update(penv)
-        for txt in c.includes + c.excludes:
+        for txt in c.texts(c.includes + c.excludes):
             resolves.append([canon(root), canon(txt), env_sx(env),
                              canon(mozpath.normpath(expand(root, txt, env)))])
     req = [40, files, resolves, roots, canon(top_path), env_sx(penv), int(ignore_missing)]
@@ -1130,6 +1224,13 @@ def run_toml(chk, p, T, ignore_missing, stats):
         while stack:
             c = stack.pop()
             stack += list(c.children) + list(c.excludes)
+            own = p.cfgs.get(mozpath.relpath(mozpath.normpath(c.path), pd))
+            if own is not None:
+                want = {k: v.replace("{T}", T) for k, v in own.env.items()}
+                want.update(penv)
+                if dict(c.environ) != want:
+                    chk.fail("config-env-not-own-env-plus-parser-env", {"project": p.text()},
+                             {"config": c.path, "environ": dict(c.environ), "expected": want})
             for k, v in penv.items():
                 if c.environ.get(k) != v:
                     chk.fail("parser-env-not-overriding", {"project": p.text()},
@@ -1214,6 +1315,19 @@ def run(chk, runner_ok):
                 flush(chk, model, "PROJECT", reqs, impls, descs)
         if model:
             flush(chk, model, "PROJECT", reqs, impls, descs, final=True)
+        # ---- several projects in one run -------------------------------------------------
+        for i in range(chk.n(150, 1800)):
+            p = gen_multi(rng)
+            todo = [(l, rng.random() < 0.3) for l in p.locales] + [(None, False)]
+            a, b, c = run_one(chk, p, T, todo, stats)
+            reqs += a
+            impls += b
+            descs += c
+            chk.hist("projects_per_run", len(p.tops))
+            if model and len(reqs) >= 400:
+                flush(chk, model, "PROJECT-multi", reqs, impls, descs)
+        if model:
+            flush(chk, model, "PROJECT-multi", reqs, impls, descs, final=True)
         # ---- the two quirks, in streams of their own ------------------------------------
         for gen in (gen_quirk_prefix_file, gen_quirk_dedup_env, gen_quirk_exclude_l10n_only):
             for i in range(chk.n(3, 12)):
